@@ -69,6 +69,7 @@ type TTY struct {
 
 	// measurements / audits
 	Unknown      []string
+	Malformed    int // ill-formed control sequences written by the application (ignored, like a real terminal does)
 	Overflow     int // writes at or past the right margin
 	WritesClosed int // bytes written after the output was closed
 	Bells        int
@@ -365,11 +366,24 @@ func (t *TTY) escape(b []byte) (int, bool) {
 		for j < len(b) && b[j] >= 0x30 && b[j] <= 0x3f {
 			j++
 		}
+		inter := j
 		for j < len(b) && b[j] >= 0x20 && b[j] <= 0x2f {
 			j++
 		}
 		if j >= len(b) {
 			return 0, false
+		}
+		if j > inter || b[j] < 0x40 || b[j] > 0x7e {
+			// Ill-formed control sequence (e.g. a negative parameter, "CSI -1 C", which fzf emits for
+			// off-screen coordinates at tiny sizes). A VT500-style parser ignores it up to its final byte.
+			for j < len(b) && (b[j] < 0x40 || b[j] > 0x7e) {
+				j++
+			}
+			if j >= len(b) {
+				return 0, false
+			}
+			t.Malformed++
+			return j + 1, true
 		}
 		t.csi(string(b[2:j]), b[j])
 		return j + 1, true
